@@ -145,13 +145,16 @@ def expected_outline(o):
 
 
 def match_outline(exp, real):
-    """expected (by construction) vs real document symbols; entries flagged optional (an anonymous def inside a defset:
-    the statement speaks of named defs, the code lists it as `anonymous_N`) may be present or absent"""
+    """expected (by construction) vs real document symbols; entries flagged optional may be present or absent: an
+    anonymous def inside a defset (the statement speaks of named defs, the code lists it as `anonymous_N`), and a named def
+    of a file that is included from inside a defset body (ambiguous: member of the defset, declared in another file)"""
     i = j = 0
     while i < len(exp):
         e = exp[i]
         if e.get("optional"):
-            if j < len(real) and real[j]["name"].startswith("anonymous_") and real[j]["kind"] == "Def":
+            if j < len(real) and real[j]["kind"] == e["kind"] and (
+                    real[j]["name"].startswith("anonymous_") if e["name"] is None
+                    else (real[j]["name"], real[j]["range"]) == (e["name"], e["range"])):
                 j += 1
             i += 1
             continue
@@ -460,6 +463,85 @@ def coq_crosscheck(cases, tag):
     for ext in (".v", ".vo", ".vok", ".vos", ".glob"):
         try:
             os.remove(os.path.join(d, name + ext))
+        except OSError:
+            pass
+    return rc == 0, n, out[-1500:]
+
+
+def _coq_name(tok):
+    return "[]" if tok == "-" else "[" + ";".join(tok.split(",")) + "]"
+
+
+def coq_op(t):
+    """token form of encode_op -> Coq term of SymbolMap.op"""
+    fr = lambda f, lo, hi: "(mkFR %s %s %s)" % (f, lo, hi)
+    b = lambda x: "true" if x == "1" else "false"
+    k = t[0]
+    if k == "AR":
+        return "OpAddRecord %s %s %s %s %s" % (_coq_name(t[1]), "RKClass" if t[2] == "C" else "RKDef", fr(t[3], t[4], t[5]), b(t[6]), t[7])
+    if k == "AAD":
+        return "OpAddAnonymousDef %s %s %s" % (_coq_name(t[1]), fr(t[2], t[3], t[4]), t[5])
+    if k == "ATA":
+        return "OpAddTemplateArg %s %s %s %s" % (_coq_name(t[1]), _coq_name(t[2]), fr(t[3], t[4], t[5]), t[6])
+    if k == "ARF":
+        return "OpAddRecordField %s %s %s %s %s" % (_coq_name(t[1]), _coq_name(t[2]), fr(t[3], t[4], t[5]), t[6], t[7])
+    if k == "AV":
+        return "OpAddVariable %s %s %s %s" % (_coq_name(t[1]), _coq_name(t[2]), fr(t[3], t[4], t[5]), t[6])
+    if k == "ADS":
+        return "OpAddDefset %s %s %s %s" % (_coq_name(t[1]), _coq_name(t[2]), fr(t[3], t[4], t[5]), t[6])
+    if k == "AMC":
+        return "OpAddMulticlass %s %s %s" % (_coq_name(t[1]), fr(t[2], t[3], t[4]), t[5])
+    if k == "ADM":
+        return "OpAddDefm %s %s %s %s" % (_coq_name(t[1]), fr(t[2], t[3], t[4]), b(t[5]), t[6])
+    if k == "AADM":
+        return "OpAddAnonymousDefm %s %s %s" % (_coq_name(t[1]), fr(t[2], t[3], t[4]), t[5])
+    if k == "REF":
+        kinds = {"record": "KRecord", "template_arg": "KTemplateArg", "record_field": "KRecordField", "variable": "KVariable",
+                 "defset": "KDefset", "multiclass": "KMulticlass", "defm": "KDefm"}
+        return "OpAddReference (%s, %s) %s" % (kinds[t[1]], t[2], fr(t[3], t[4], t[5]))
+    simple = {"RM": "OpRecordMut", "DSM": "OpDefsetMut", "MCM": "OpMulticlassMut", "DMM": "OpDefmMut", "RP": "OpRecAddParent",
+              "DAD": "OpDefsetAddDef", "MP": "OpMcAddParent", "DMP": "OpDefmAddParent"}
+    if k in simple:
+        return "%s %s" % (simple[k], t[1])
+    named = {"RTA": "OpRecAddTemplateArg", "RF": "OpRecAddField", "MTA": "OpMcAddTemplateArg"}
+    if k in named:
+        return "%s %s %s" % (named[k], _coq_name(t[1]), t[2])
+    if k == "ERR":
+        return "OpError " + fr(t[1], t[2], t[3])
+    raise ValueError(k)
+
+
+def coq_docsym(e):
+    nm = lambda x: "[" + ";".join(str(c) for c in x) + "]"
+    return "DocSym %s %s %d %d DK%s [%s]" % (nm(e["name"]), nm(e["typ"]), e["range"][0], e["range"][1], e["kind"],
+                                            "; ".join(coq_docsym(c) for c in e["children"]))
+
+
+def coq_crosscheck_sym(cases, tag):
+    """cases: list of (outdump object, {fid: raw JSON outline as printed by the EXTRACTED model}).  The op log is replayed and
+    document_symbol evaluated by vm_compute inside Coq; returns (ok, n_goals, log)."""
+    body = ["From Coq Require Import List NArith.", "From TG.Model Require Import Chars SymbolMap Outline.",
+            "Import ListNotations.", "Open Scope N_scope.", ""]
+    n = 0
+    for i, (d, outl) in enumerate(cases):
+        ops = [coq_op(encode_op(l, d["types"])) for l in d["oplog"]]
+        body.append("Definition ops%d : list op := [ %s ]." % (i, ";\n  ".join(ops)))
+        for fid, o in outl.items():
+            rhs = "SOk None" if o is None else "SOk (Some [%s])" % "; ".join(coq_docsym(e) for e in o)
+            body.append("Goal match run_ops ops%d with SOk st => document_symbol st %d | SErr e => SErr e end = %s.\n"
+                        "Proof. vm_compute. reflexivity. Qed." % (i, fid, rhs))
+            n += 1
+    d_ = os.path.join(vlib.CACHE, "outline-xc")
+    os.makedirs(d_, exist_ok=True)
+    name = "XS_%s_%s" % (tag, vlib.sha("\n".join(body))[:10])
+    path = os.path.join(d_, name + ".v")
+    with open(path, "w") as f:
+        f.write("\n".join(body) + "\n")
+    rc, out = vlib.sh(["coqc", "-noglob", "-Q", "gen", "TG.Gen", "-Q", "model", "TG.Model", "-Q", "proofs", "TG.Proofs", path],
+                      cwd=vlib.COQ, timeout=300)
+    for ext in (".v", ".vo", ".vok", ".vos", ".glob"):
+        try:
+            os.remove(os.path.join(d_, name + ext))
         except OSError:
             pass
     return rc == 0, n, out[-1500:]
